@@ -61,11 +61,11 @@ class StubTaskPool:
         h, _k = w.exec_pos(name)
         msg = w.cur_msg
         if msg is None or id(msg) not in w.tags:
-            raise tlc.MachineryError("pool.submit() outside the delivery of a tagged DoTask")
+            raise w.machinery_error("pool.submit() outside the delivery of a tagged DoTask")
         run = TaskRun(fn, params, tuple(w.tags[id(msg)]), h)
         prev = w.task_runs.get(name)
         if prev is not None and prev.state == "submitted":
-            raise tlc.MachineryError("%s submitted a second task while the first one is running" % name)
+            raise w.machinery_error("%s submitted a second task while the first one is running" % name)
         w.task_runs[name] = run
         w.sub_log[h - 1].append(list(run.tag))
         return run.future
@@ -111,6 +111,7 @@ class PrepWorld(racesim.RaceWorld):
 
         world = self
         self.cfired = False
+        self.machinery = []
         self.cur_msg = None
         self.tags = {}  # id(message) -> (p, t) for DoTask, p for StartTaskLoop
         self._keep = []  # tagged messages are kept alive (ids must stay unique)
@@ -146,7 +147,7 @@ class PrepWorld(racesim.RaceWorld):
             def on_prepare_track(self_, track, data_root_dir):
                 h, p = world.seeding_position()
                 if p != self_.p:
-                    raise tlc.MachineryError("processor %d is seeded as number %d" % (self_.p, p))
+                    raise world.machinery_error("processor %d is seeded as number %d" % (self_.p, p))
                 world.maybe_seed_fault(h, p)
                 for t in range(1, self_.n + 1):
                     yield prep_task, {"world": world, "h": h, "p": p, "t": t}
@@ -181,6 +182,12 @@ class PrepWorld(racesim.RaceWorld):
 
         self._patch(loader.TrackProcessor, "on_prepare_track", base_on_prepare_track)
         self.sim.send_hook = self._on_send
+
+    def machinery_error(self, text):
+        """A problem of the harness noticed INSIDE a handler of the code under test: no_retry would turn the exception into a
+        BenchmarkFailure, so it is remembered and raised again by prep_step() after the handler has returned."""
+        self.machinery.append(text)
+        return tlc.MachineryError(text)
 
     # ---- who is who
     def tp_names(self):
@@ -234,7 +241,7 @@ class PrepWorld(racesim.RaceWorld):
         """(host, number of the processor being seeded) - called from inside _seed_tasks of the preparator that is running."""
         name = self.clock.current
         if name is None or not name.startswith("TrackPreparationActor"):
-            raise tlc.MachineryError("on_prepare_track called outside a track preparator (%r)" % (name,))
+            raise self.machinery_error("on_prepare_track called outside a track preparator (%r)" % (name,))
         h = self.host_of_tp(name)
         return h, self.tp(h).instance_round()
 
@@ -327,6 +334,8 @@ class PrepWorld(racesim.RaceWorld):
             self.sim.step(dec)
         finally:
             self.cur_msg = None
+        if self.machinery:
+            raise tlc.MachineryError(self.machinery[0])
 
     def pool_run(self, name):
         """The pool thread of executor `name` runs its task to the end."""
